@@ -353,6 +353,10 @@ struct GroupStat {
     failures_beyond_bound: u64,
     random_cases: u64,
     random_failures: u64,
+    /// failures on enumerated streams within the signature bound, and a digest of exactly which cases
+    /// fail with which reported value: the listed finding is this failure table, nothing coarser
+    failures_within_bound: u64,
+    table: u64,
 }
 
 fn comp_short(label: &str) -> &'static str {
@@ -367,7 +371,8 @@ fn comp_short(label: &str) -> &'static str {
 
 /// (query shape, mode, oracle, for each failure kind the smallest failing stream [+ companion set]).
 /// Everything is computed from a fixed enumeration, nothing from random data.
-fn signature(key: &GroupKey, first_by_kind: &BTreeMap<String, (String, String)>) -> String {
+fn signature(key: &GroupKey, st: &GroupStat) -> String {
+    let first_by_kind = &st.first_by_kind;
     if first_by_kind.is_empty() {
         return format!("{}/{}/{}/fails-only-beyond-the-signature-enumeration", key.0, key.1.name(), key.2.name());
     }
@@ -378,7 +383,7 @@ fn signature(key: &GroupKey, first_by_kind: &BTreeMap<String, (String, String)>)
             format!("{}@{}{}", kind, stream, if c.is_empty() { String::new() } else { format!(":{}", c) })
         })
         .collect();
-    format!("{}/{}/{}/{}", key.0, key.1.name(), key.2.name(), parts.join("+"))
+    format!("{}/{}/{}/{}#{}:{:06x}", key.0, key.1.name(), key.2.name(), parts.join("+"), st.failures_within_bound, st.table & 0xff_ffff)
 }
 
 fn witness(queries: &[Query], target: usize, stream: &[u8], mode: Mode, oracle: Oracle, expected: u64, got: Option<u64>, brute_count: u64) -> J {
@@ -485,6 +490,10 @@ fn exhaustive_group(q: &Query, mode: Mode, all: &[Query], maxlen: usize, sig_bou
                 partial.add("comparisons", 1);
                 if let Some(kind) = mismatch(expected, got) {
                     st.failures += 1;
+                    if stream.len() <= sig_bound {
+                        st.failures_within_bound += 1;
+                        st.table = hash64(&(st.table, label.as_str(), stream_text(&stream), expected, got));
+                    }
                     if stream.len() > sig_bound {
                         st.failures_beyond_bound += 1;
                     } else if !st.first_by_kind.contains_key(kind) {
@@ -592,7 +601,7 @@ fn main() {
     // verdicts of the exhaustive lane (recorded first so that the stored witnesses are the smallest ones)
     for (k, s) in &stats {
         if s.failures > 0 {
-            let sig = signature(k, &s.first_by_kind);
+            let sig = signature(k, s);
             let what = format!("{} {} for shape {}: {} of {} enumerated cases differ", k.1.name(), k.2.name(), k.0, s.failures, s.cases);
             for w in &s.witnesses {
                 rep.violation(&sig, &what, w.clone());
@@ -605,7 +614,7 @@ fn main() {
     }
 
     // ---------------- random lane ----------------
-    let sigs: Arc<BTreeMap<GroupKey, String>> = Arc::new(stats.iter().map(|(k, s)| (k.clone(), signature(k, &s.first_by_kind))).collect());
+    let sigs: Arc<BTreeMap<GroupKey, String>> = Arc::new(stats.iter().map(|(k, s)| (k.clone(), signature(k, s))).collect());
     let cases_per_thread = args.pick(1500usize, 60_000usize) / threads + 1;
     let (a3, s3) = (all.clone(), sigs.clone());
     let outs = parallel(threads, args.seed ^ 0xC25, move |ti, mut rng| {
@@ -672,7 +681,7 @@ fn main() {
                     out.add("comparisons", 1);
                     if let Some(kind) = mismatch(expected, got) {
                         e.1 += 1;
-                        let sig = s3.get(&key).cloned().unwrap_or_else(|| signature(&key, &BTreeMap::new()));
+                        let sig = s3.get(&key).cloned().unwrap_or_else(|| signature(&key, &GroupStat::default()));
                         let mut w = witness(&queries, target, &stream, m, o, expected, got, bf);
                         w["kind"] = json!(kind);
                         w["lane"] = json!("random");
